@@ -5,6 +5,8 @@ and pass on /repo, and which registered check detects it (quick tier).
 Writes seeded/RESULTS.json and seeded/RESULTS.md.
 
   tools/seeded_matrix.py [--jobs 4] [--tier quick] [name ...]
+
+With names, only those are re-run and merged into the existing RESULTS.json.
 '''
 import json, os, subprocess, sys
 from concurrent.futures import ThreadPoolExecutor
@@ -41,6 +43,15 @@ def main():
                            if os.path.isdir(os.path.join(ROOT, n)))
     with ThreadPoolExecutor(jobs) as ex:
         results = dict(ex.map(lambda n: one(n, tier), names))
+    if args:
+        # a partial run is merged into the existing table
+        try:
+            old = json.load(open(os.path.join(ROOT, 'RESULTS.json')))['results']
+        except (OSError, ValueError, KeyError):
+            old = {}
+        old.update(results)
+        results = {n: r for n, r in old.items()
+                   if os.path.isdir(os.path.join(ROOT, n))}
     head = subprocess.run(['git', '-C', '/repo', 'rev-parse', '--short', 'HEAD'],
                           capture_output=True, text=True).stdout.strip()
     json.dump({'repo_head': head, 'tier': tier, 'results': results},
